@@ -8,4 +8,10 @@ for d in /verif/seeded/C*/; do
   o=$(/verif/tools_try.sh $d/patch.diff $prop $T 2>&1); r=$(echo "$o" | tail -1); v=$(echo "$o" | grep -m1 "^violations:")
   echo "$id $prop $T $r $v" >> $OUT
 done
+# the reverse patch of every later fix: the repaired defect must be seen again
+for f in /verif/seeded/_regressions/*.diff; do
+  id=$(basename $f .diff); prop=$(echo $id | cut -c1-3)
+  o=$(/verif/tools_try.sh $f $prop $T 2>&1); r=$(echo "$o" | tail -1); v=$(echo "$o" | grep -m1 "^violations:")
+  echo "regression-$id $prop $T $r $v" >> $OUT
+done
 cat $OUT
